@@ -20,7 +20,7 @@
      del_w : the Delaunay weight of sub-pixel s towards p (area ratios inside a simplex, nearest-vertex indicator outside);
      final_row H W t = (adj4 H W t padded with -1 to length 4, its length);  mat_shape N P M : M is N x P. *)
 From Coq Require Import ZArith List Bool Reals Lra Lia QArith.
-From PAV Require Import Base.Res Base.Check Base.NumOps Base.Sum Model.C06 Proofs.C06.
+From PAV Require Import Base.Res Base.Check Base.NumOps Base.Sum Model.C06 Proofs.C06 Model.C06h Proofs.C06h.
 Import ListNotations.
 Local Open Scope R_scope.
 
@@ -293,6 +293,84 @@ Proof. exact tri_neighbors_spec. Qed.
 Theorem C06_tri_neighbors_symmetric : forall simplices a b, In b (tri_neighbors simplices a) -> In a (tri_neighbors simplices b).
 Proof. exact tri_neighbors_symmetric. Qed.
 
+(* ---------------------------------------------------------------- histories on one mapper object *)
+(* The observables are cached properties of a mapper object, and pixel_signals_from / the adaptive-brightness
+   regularization read the cached arrays (Model/C06h.v: the cache state machine [run]).  From a fresh object, after ANY
+   sequence of calls (any order, any repetition, signal / regularization queries in between), each call returns the
+   pure function of the mapper's inputs: the caches only ever hold those values.  For every numeric instance. *)
+Theorem C06_history_pure : forall (O : NumOps) (f_psw : unit -> psw_t (T O)) (f_nb : unit -> nb_out) P N sfs subs adapt
+  (ops : list (hop (T O))),
+  @run O f_psw f_nb P N sfs subs adapt st0 ops = map (@pure_obs O f_psw f_nb P N sfs subs adapt) ops.
+Proof. exact @run_pure. Qed.
+(* so the answer to a call depends neither on what was called before nor on how often *)
+Theorem C06_history_order_irrelevant : forall (O : NumOps) (f_psw : unit -> psw_t (T O)) (f_nb : unit -> nb_out) P N sfs subs adapt
+  (ops1 ops2 : list (hop (T O))) k1 k2 op,
+  nth_error ops1 k1 = Some op -> nth_error ops2 k2 = Some op ->
+  nth_error (@run O f_psw f_nb P N sfs subs adapt st0 ops1) k1 = nth_error (@run O f_psw f_nb P N sfs subs adapt st0 ops2) k2.
+Proof. exact @run_order_irrelevant. Qed.
+
+(* rectangular mapper: ONE matrix M (row-stochastic, non-negative, the claimed interpolation) and ONE sparse triple
+   encoding it such that, in every history, every reading of mapping_matrix returns M and every reading of
+   unique_mappings returns that triple *)
+Theorem C06_rect_history : forall m subs (grid : list (R * R)) n0 n1 b (adapt : list R),
+  length subs = count_unmasked m -> (forall i, (i < length subs)%nat -> (1 <= nth i subs 0)%nat) ->
+  length grid = total_sub subs -> (0 < n0)%Z -> (0 < n1)%Z -> 0 < b ->
+  let P := Z.to_nat (n0 * n1) in
+  let fns := @rect_fns ROps grid (n0, n1) b in
+  exists M rows,
+    mat_shape (count_unmasked m) P M
+    /\ (forall i, (i < count_unmasked m)%nat -> sumR (map (fun p => @mget ROps M i p) (seq 0 P)) = 1)
+    /\ (forall i p, (i < count_unmasked m)%nat -> (p < P)%nat -> 0 <= @mget ROps M i p)
+    /\ (forall i p, (i < count_unmasked m)%nat -> (p < P)%nat ->
+          @mget ROps M i p = sumR (map (fun s => 1 / INR (sq_n (nth i subs 0%nat))
+                                                * @rect_weight ROps (@geom_of_extent ROps (n0, n1) grid b) (nth s grid (0, 0)) p)
+                                       (block subs i)))
+    /\ length rows = count_unmasked m
+    /\ (forall i, (i < count_unmasked m)%nat ->
+          let '(u, w, n) := nth i rows ([], [], 0%nat) in
+          (n <= length u)%nat /\ length w = length u /\ NoDup (firstn n u)
+          /\ (forall k, (k < n)%nat -> (0 <= nth k u (-1) < Z.of_nat P)%Z)
+          /\ (forall k, (n <= k)%nat -> nth k u (-1)%Z = (-1)%Z /\ nth k w 0 = 0)
+          /\ (forall p, (p < P)%nat ->
+                sumR (map (fun k => if Z.eqb (nth k u (-1)%Z) (Z.of_nat p) then nth k w 0 else 0) (seq 0 n)) = @mget ROps M i p))
+    /\ forall (ops : list (hop R)) k,
+         let outs := @run ROps (fst fns) (snd fns) P (count_unmasked m) (slim_for_sub m subs) subs adapt st0 ops in
+         (nth_error ops k = Some OMat -> nth_error outs k = Some (BMat (Ok M)))
+         /\ (nth_error ops k = Some OUq -> nth_error outs k = Some (BUq (Ok (uq_packT rows)))).
+Proof. exact rect_history. Qed.
+
+(* Delaunay mapper, relative to the qhull contract *)
+Theorem C06_del_history : forall m subs (grid points : list (R * R)) simplices simplex_for indptr indices (adapt : list R),
+  length subs = count_unmasked m -> (forall i, (i < length subs)%nat -> (1 <= nth i subs 0)%nat) ->
+  length grid = total_sub subs -> length simplex_for = length grid -> points <> [] ->
+  (forall row, In row simplices ->
+    exists a b c, row = [a; b; c] /\ (0 <= a < Z.of_nat (length points))%Z /\ (0 <= b < Z.of_nat (length points))%Z
+                  /\ (0 <= c < Z.of_nat (length points))%Z
+                  /\ @cross ROps (vtxR points row 0) (vtxR points row 1) (vtxR points row 2) <> 0) ->
+  (forall t, In t simplex_for -> t = (-1)%Z \/ (0 <= t < Z.of_nat (length simplices))%Z) ->
+  let P := length points in
+  let fns := @del_fns ROps grid points simplices simplex_for indptr indices in
+  exists M rows,
+    mat_shape (count_unmasked m) P M
+    /\ (forall i, (i < count_unmasked m)%nat -> sumR (map (fun p => @mget ROps M i p) (seq 0 P)) = 1)
+    /\ (forall i p, (i < count_unmasked m)%nat -> (p < P)%nat -> 0 <= @mget ROps M i p)
+    /\ (forall i p, (i < count_unmasked m)%nat -> (p < P)%nat ->
+          @mget ROps M i p = sumR (map (fun s => 1 / INR (sq_n (nth i subs 0%nat)) * del_w grid points simplices simplex_for s p)
+                                       (block subs i)))
+    /\ length rows = count_unmasked m
+    /\ (forall i, (i < count_unmasked m)%nat ->
+          let '(u, w, n) := nth i rows ([], [], 0%nat) in
+          (n <= length u)%nat /\ length w = length u /\ NoDup (firstn n u)
+          /\ (forall k, (k < n)%nat -> (0 <= nth k u (-1) < Z.of_nat P)%Z)
+          /\ (forall k, (n <= k)%nat -> nth k u (-1)%Z = (-1)%Z /\ nth k w 0 = 0)
+          /\ (forall p, (p < P)%nat ->
+                sumR (map (fun k => if Z.eqb (nth k u (-1)%Z) (Z.of_nat p) then nth k w 0 else 0) (seq 0 n)) = @mget ROps M i p))
+    /\ forall (ops : list (hop R)) k,
+         let outs := @run ROps (fst fns) (snd fns) P (count_unmasked m) (slim_for_sub m subs) subs adapt st0 ops in
+         (nth_error ops k = Some OMat -> nth_error outs k = Some (BMat (Ok M)))
+         /\ (nth_error ops k = Some OUq -> nth_error outs k = Some (BUq (Ok (uq_packT rows)))).
+Proof. exact del_history. Qed.
+
 (* ---------------------------------------------------------------- non-vacuity *)
 (* mapper_ok is met by a concrete non-trivial input (2 unmasked pixels, sub-sizes 1 and 2, repeated and 3-fold mappings) *)
 Example C06_mapper_ok_satisfiable :
@@ -348,6 +426,23 @@ Example C06_rect_model_runs :
   end.
 Proof. vm_compute. split; reflexivity. Qed.
 
+(* the history machine is executable: the Delaunay mapper of C06_del_hyps_satisfiable (two image pixels, sub-size 1) with the
+   adapt image (1, 1/2); the pixel signals are asked for FIRST, then the matrix, a regularization matrix, the sparse
+   triple, the weights, and the matrix again: both readings of the matrix coincide, its rows sum to one, and the signals
+   (the weighted means (1/2, 1/4, 1/4, 1/2) relative to their maximum) are (1, 1/2, 1/2, 1) *)
+Example C06_history_runs :
+  let fns := @del_fns QOps [(1, 1); (5, 5)]%Q [(0, 0); (0, 4); (4, 0); (4, 4)]%Q [[0; 1; 2]; [1; 3; 2]]%Z [0; -1]%Z
+                      [0; 2; 5; 8; 10]%Z [1; 2; 0; 3; 2; 0; 1; 3; 1; 2]%Z in
+  let outs := @run QOps (fst fns) (snd fns) 4 2 [0; 1]%nat [1; 1]%nat [1; 1 # 2]%Q st0
+                   [OSig 1; OMat; ORegM 1%Q (1 # 2)%Q 1; OUq; OPsw; OMat] in
+  nth_error outs 0 = Some (BVec (Ok [1; 1 # 2; 1 # 2; 1]%Q))
+  /\ nth_error outs 1 = nth_error outs 5
+  /\ match nth_error outs 1 with
+     | Some (BMat (Ok rows)) => map (fun r => Qred (fold_right Qplus 0%Q r)) rows = [1%Q; 1%Q]
+     | _ => False
+     end.
+Proof. vm_compute. repeat split; reflexivity. Qed.
+
 Print Assumptions C06_slim_for_sub_blocks. Print Assumptions C06_entry_formula. Print Assumptions C06_entry_block_formula.
 Print Assumptions C06_rows_sum_to_one. Print Assumptions C06_rows_nonneg. Print Assumptions C06_unique_encodes_dense.
 Print Assumptions C06_rect_cell. Print Assumptions C06_overlay_is_extent_mesh. Print Assumptions C06_overlay_pixel_index.
@@ -361,3 +456,5 @@ Print Assumptions C06_rect_neighbors_are_adj4. Print Assumptions C06_adj4_symmet
 Print Assumptions C06_del_neighbors_rows.
 Print Assumptions C06_rect_weight_is_cell_indicator. Print Assumptions C06_delaunay_weight_is_claimed.
 Print Assumptions C06_delaunay_weight_barycentric_in_simplex. Print Assumptions C06_tri_neighbors_spec. Print Assumptions C06_tri_neighbors_symmetric.
+Print Assumptions C06_history_pure. Print Assumptions C06_history_order_irrelevant.
+Print Assumptions C06_rect_history. Print Assumptions C06_del_history.
